@@ -21,18 +21,18 @@ PID = "C05"
 CFG = {
     "quick": dict(
         MaxLen=5,
-        LeafNames={"n0", "n2", "nm1", "nh", "oo", "nan", "m", "km", "s", "kg", "newton", "kilo", "q2m", "sym"},
-        OpNames={"mul2", "add2", "add3", "pow", "abs", "min2", "max2", "exp"}),
+        LeafNames={"n0", "n2", "nm1", "nh", "oo", "nan", "m", "km", "s", "kg", "newton", "hz", "kilo", "sym"},
+        OpNames={"mul2", "add2", "add3", "pow", "abs", "min2", "max2", "exp", "atan2"}),
     "thorough": dict(
         MaxLen=5,
         LeafNames={"n0", "n1", "n2", "n3", "nm1", "nm2", "nh", "n4", "oo", "noo", "nan", "m", "km", "cm", "s", "minute",
-                   "kg", "gram", "newton", "joule", "rad", "kilo", "milli", "pkilo", "q2m", "q4m2", "q0", "qang",
+                   "kg", "gram", "newton", "hz", "joule", "rad", "kilo", "milli", "pkilo", "q2m", "q4m2", "q0", "qang",
                    "sym", "deriv"},
-        OpNames={"mul2", "mul3", "add2", "add3", "pow", "abs", "min2", "max2", "exp"}),
+        OpNames={"mul2", "mul3", "add2", "add3", "pow", "abs", "min2", "max2", "exp", "atan2"}),
 }
 # deeper, narrower configurations (run in addition)
 DEEP = {
-    "quick": [dict(MaxLen=7, LeafNames={"n0", "n2", "m", "s", "sym"}, OpNames={"mul2", "add2", "pow", "min2", "exp"})],
+    "quick": [dict(MaxLen=7, LeafNames={"n0", "n2", "m", "s", "hz", "sym"}, OpNames={"mul2", "add2", "pow", "min2", "exp"})],
     "thorough": [dict(MaxLen=7, LeafNames={"n0", "n2", "nm1", "nh", "oo", "m", "km", "s", "sym"},
                       OpNames={"mul2", "add2", "pow", "abs", "min2", "exp"}),
                  dict(MaxLen=9, LeafNames={"n0", "n2", "m", "s"}, OpNames={"mul2", "add2", "pow", "max2"})],
